@@ -10,71 +10,73 @@ Lemma vt_consts t : vt t -> Gen.MIN_DATA_CLUSTER t = 2 /\ Gen.FREE_CLUSTER t = 0
   2 < Gen.MAX_DATA_CLUSTER t < Gen.END_OF_CLUSTER_MIN t /\ Gen.END_OF_CLUSTER_MIN t <= Gen.END_OF_CLUSTER_MAX t /\
   (t = 12 -> Gen.MAX_DATA_CLUSTER t < Gen.FAT12_SPECIAL_EOC).
 Proof. intros [H|[H|H]]; subst t; vm_compute; repeat split; intros; discriminate. Qed.
-Lemma eoc_not_data t v : vt t -> is_eoc t v = true -> is_data t v = false.
+Definition dok (t dm:Z) : Prop := Gen.MAX_DATA_CLUSTER t <= dm < Gen.BAD_CLUSTER t.
+Lemma vt_bad t : vt t -> Gen.BAD_CLUSTER t < Gen.END_OF_CLUSTER_MIN t /\ Gen.MAX_DATA_CLUSTER t < Gen.BAD_CLUSTER t.
+Proof. intros [H|[H|H]]; subst t; vm_compute; repeat split; intros; discriminate. Qed.
+Lemma eoc_max_not_data t dm : vt t -> dok t dm -> is_data t dm (Gen.END_OF_CLUSTER_MAX t) = false.
 Proof.
-  intros Hv. destruct (vt_consts t Hv) as (H1 & _ & H3 & H4 & H5). unfold is_eoc, is_data.
-  change Gen.FAT_TYPE_FAT12 with 12. destruct (t =? 12) eqn:E; [specialize (H5 ltac:(lia))|]; lia.
+  intros Hv [_ Hd]. destruct (vt_consts t Hv) as (H1 & _ & H3 & H4 & _). destruct (vt_bad t Hv) as [Hb _]. unfold is_data. lia.
 Qed.
 Lemma eoc_max_is_eoc t : vt t -> is_eoc t (Gen.END_OF_CLUSTER_MAX t) = true.
 Proof. intros Hv. destruct (vt_consts t Hv) as (_ & _ & _ & H4 & _). unfold is_eoc. lia. Qed.
-Lemma data_or_eoc_nonfree t v : vt t -> is_data t v = true \/ is_eoc t v = true -> v <> 0.
+Lemma data_or_eoc_nonfree t dm v : vt t -> is_data t dm v = true \/ is_eoc t v = true -> v <> 0.
 Proof.
   intros Hv. destruct (vt_consts t Hv) as (H1 & _ & H3 & H4 & H5). unfold is_eoc, is_data. change Gen.FAT_TYPE_FAT12 with 12.
   change Gen.FAT12_SPECIAL_EOC with 4080 in *. lia.
 Qed.
 
-(** [links t fat l]: [l] is a path through the FAT ending at an end-of-chain value *)
-Fixpoint links (t:Z) (fat:list Z) (l:list Z) : Prop :=
+(** [links t dm fat l]: [l] is a path through the FAT ending at an end-of-chain value *)
+Fixpoint links (t dm:Z) (fat:list Z) (l:list Z) : Prop :=
   match l with
   | [] => False
-  | [c] => Gen.MIN_DATA_CLUSTER t <= c < lenZ fat /\ is_eoc t (nthZ fat c) = true
-  | c :: ((d :: _) as r) => Gen.MIN_DATA_CLUSTER t <= c < lenZ fat /\ nthZ fat c = d /\ is_data t d = true /\ links t fat r
+  | [c] => Gen.MIN_DATA_CLUSTER t <= c < lenZ fat /\ is_data t dm (nthZ fat c) = false /\ is_eoc t (nthZ fat c) = true
+  | c :: ((d :: _) as r) => Gen.MIN_DATA_CLUSTER t <= c < lenZ fat /\ nthZ fat c = d /\ is_data t dm d = true /\ links t dm fat r
   end.
-Lemma links_cons2 t fat c d r : links t fat (c :: d :: r) <-> Gen.MIN_DATA_CLUSTER t <= c < lenZ fat /\ nthZ fat c = d /\ is_data t d = true /\ links t fat (d :: r).
+Lemma links_cons2 t dm fat c d r : links t dm fat (c :: d :: r) <-> Gen.MIN_DATA_CLUSTER t <= c < lenZ fat /\ nthZ fat c = d /\ is_data t dm d = true /\ links t dm fat (d :: r).
 Proof. reflexivity. Qed.
-Lemma links_in_range t fat l : links t fat l -> Forall (fun c => 0 <= c < lenZ fat) l.
+Lemma links_in_range t dm fat l : links t dm fat l -> Forall (fun c => 0 <= c < lenZ fat) l.
 Proof.
   pose proof (min_data_nonneg t) as Hm.
   induction l as [|c [|d r] IH]; intros H; [destruct H| |].
   - destruct H. repeat constructor; lia.
   - apply links_cons2 in H. destruct H as (H1 & _ & _ & H4). constructor; [lia|apply IH; exact H4].
 Qed.
-Lemma links_min t fat l : links t fat l -> Forall (fun c => Gen.MIN_DATA_CLUSTER t <= c) l.
+Lemma links_min t dm fat l : links t dm fat l -> Forall (fun c => Gen.MIN_DATA_CLUSTER t <= c) l.
 Proof.
   induction l as [|c [|d r] IH]; intros H; [destruct H| |].
   - destruct H. repeat constructor; lia.
   - apply links_cons2 in H. destruct H as (H1 & _ & _ & H4). constructor; [lia|apply IH; exact H4].
 Qed.
-Lemma links_nonfree t fat l : vt t -> links t fat l -> Forall (fun c => nthZ fat c <> 0) l.
+Lemma links_nonfree t dm fat l : vt t -> links t dm fat l -> Forall (fun c => nthZ fat c <> 0) l.
 Proof.
   intros Hv. induction l as [|c [|d r] IH]; intros H; [destruct H| |].
-  - destruct H as [_ H]. constructor; [|constructor]. apply (data_or_eoc_nonfree t); auto.
+  - destruct H as (_ & _ & H). constructor; [|constructor]. apply (data_or_eoc_nonfree t dm); auto.
   - apply links_cons2 in H. destruct H as (_ & H2 & H3 & H4). constructor; [|apply IH; exact H4].
-    rewrite H2. apply (data_or_eoc_nonfree t); auto.
+    rewrite H2. apply (data_or_eoc_nonfree t dm); auto.
 Qed.
-Lemma links_frame t fat fat' l : lenZ fat' = lenZ fat -> (forall c, In c l -> nthZ fat' c = nthZ fat c) -> links t fat l -> links t fat' l.
+Lemma links_frame t dm fat fat' l : lenZ fat' = lenZ fat -> (forall c, In c l -> nthZ fat' c = nthZ fat c) -> links t dm fat l -> links t dm fat' l.
 Proof.
   intros Hl. induction l as [|c [|d r] IH]; intros Hf H; [destruct H| |].
-  - destruct H as [H1 H2]. cbn [links]. rewrite Hl, Hf by (left; reflexivity). auto.
+  - destruct H as (H1 & H2 & H3). cbn [links]. rewrite Hl, Hf by (left; reflexivity). auto.
   - apply links_cons2 in H. destruct H as (H1 & H2 & H3 & H4). apply links_cons2. rewrite Hl, Hf by (left; reflexivity).
     repeat split; try assumption; try lia. apply IH; [|exact H4]. intros x Hx. apply Hf. right. exact Hx.
 Qed.
 
 (** soundness and completeness of the follower *)
-Lemma chain_go_links f : forall t fat i l, chain_go f t fat i = (l, true) -> links t fat l /\ hd 0 l = i.
+Lemma chain_go_links f : forall t dm fat i l, chain_go f t dm fat i = (l, true) -> links t dm fat l /\ hd 0 l = i.
 Proof.
-  induction f as [|g IH]; intros t fat i l H; [discriminate|].
+  induction f as [|g IH]; intros t dm fat i l H; [discriminate|].
   cbn [chain_go] in H. destruct ((i <? Gen.MIN_DATA_CLUSTER t) || (lenZ fat <=? i)) eqn:Eg; [discriminate|]. cbv zeta in H.
-  destruct (is_data t (nthZ fat i)) eqn:Ed.
-  - destruct (chain_go g t fat (nthZ fat i)) as [r o] eqn:E. inversion H; subst. destruct (IH _ _ _ _ E) as [Hl Hh].
+  destruct (is_data t dm (nthZ fat i)) eqn:Ed.
+  - destruct (chain_go g t dm fat (nthZ fat i)) as [r o] eqn:E. inversion H; subst. destruct (IH _ _ _ _ _ E) as [Hl Hh].
     split; [|reflexivity]. destruct r as [|d r']; [destruct Hl|]. cbn [hd] in Hh. subst d. apply links_cons2. repeat split; try lia; assumption.
-  - destruct (is_eoc t (nthZ fat i)) eqn:Ee; [|discriminate]. inversion H; subst. split; [|reflexivity]. cbn [links]. split; [lia|exact Ee].
+  - destruct (is_eoc t (nthZ fat i)) eqn:Ee; [|discriminate]. inversion H; subst. split; [|reflexivity]. cbn [links]. split; [lia|]. split; [exact Ed|exact Ee].
 Qed.
-Lemma links_chain_go t fat : vt t -> forall l f, links t fat l -> (length l <= f)%nat -> chain_go f t fat (hd 0 l) = (l, true).
+Lemma links_chain_go t dm fat : forall l f, links t dm fat l -> (length l <= f)%nat -> chain_go f t dm fat (hd 0 l) = (l, true).
 Proof.
-  intros Hv. induction l as [|c [|d r] IH]; intros f H Hf; [destruct H| |].
-  - destruct f as [|g]; [cbn in Hf; lia|]. destruct H as [H1 H2]. cbn [chain_go hd].
-    replace ((c <? Gen.MIN_DATA_CLUSTER t) || (lenZ fat <=? c)) with false by lia. cbv zeta. rewrite (eoc_not_data t _ Hv H2), H2. reflexivity.
+  induction l as [|c [|d r] IH]; intros f H Hf; [destruct H| |].
+  - destruct f as [|g]; [cbn in Hf; lia|]. destruct H as (H1 & H2 & H3). cbn [chain_go hd].
+    replace ((c <? Gen.MIN_DATA_CLUSTER t) || (lenZ fat <=? c)) with false by lia. cbv zeta. rewrite H2, H3. reflexivity.
   - destruct f as [|g]; [cbn in Hf; lia|]. apply links_cons2 in H. destruct H as (H1 & H2 & H3 & H4). cbn [chain_go hd].
     replace ((c <? Gen.MIN_DATA_CLUSTER t) || (lenZ fat <=? c)) with false by lia. cbv zeta. rewrite H2, H3.
     specialize (IH g H4 ltac:(cbn [length] in *; lia)). cbn [hd] in IH. rewrite IH. reflexivity.
@@ -101,14 +103,14 @@ Qed.
 (** appending: the old path, its last cluster re-pointed at the head of a new path *)
 Lemma last_in (l:list Z) : l <> [] -> In (last l 0) l.
 Proof. intros H. destruct (exists_last H) as (l' & a & ->). rewrite last_last. apply in_or_app. right. left. reflexivity. Qed.
-Lemma links_nonempty t fat l : links t fat l -> l <> [].
+Lemma links_nonempty t dm fat l : links t dm fat l -> l <> [].
 Proof. destruct l; [intros []|discriminate]. Qed.
-Lemma links_extend t a : forall fat fat' b, NoDup a -> links t fat a -> links t fat' b -> lenZ fat' = lenZ fat ->
-  (forall c, In c a -> c <> last a 0 -> nthZ fat' c = nthZ fat c) -> nthZ fat' (last a 0) = hd 0 b -> is_data t (hd 0 b) = true ->
-  links t fat' (a ++ b).
+Lemma links_extend t dm a : forall fat fat' b, NoDup a -> links t dm fat a -> links t dm fat' b -> lenZ fat' = lenZ fat ->
+  (forall c, In c a -> c <> last a 0 -> nthZ fat' c = nthZ fat c) -> nthZ fat' (last a 0) = hd 0 b -> is_data t dm (hd 0 b) = true ->
+  links t dm fat' (a ++ b).
 Proof.
   induction a as [|c [|d r] IH]; intros fat fat' b Hnd Ha Hb Hl Hfr Hlast Hd; [destruct Ha| |].
-  - destruct Ha as [H1 _]. cbn [app last] in *. destruct b as [|x b']; [destruct Hb|]. cbn [hd] in *.
+  - destruct Ha as (H1 & _ & _). cbn [app last] in *. destruct b as [|x b']; [destruct Hb|]. cbn [hd] in *.
     apply links_cons2. repeat split; try lia; assumption.
   - apply links_cons2 in Ha. destruct Ha as (H1 & H2 & H3 & H4). inversion Hnd as [|? ? Hc Hnd']; subst.
     change ((c :: nthZ fat c :: r) ++ b) with (c :: (nthZ fat c :: r) ++ b). change ((nthZ fat c :: r) ++ b) with (nthZ fat c :: r ++ b).
@@ -120,29 +122,29 @@ Proof.
     intros x Hx Hxl. apply Hfr; [right; exact Hx|exact Hxl].
 Qed.
 
-Lemma is_data_min t c : is_data t c = true -> Gen.MIN_DATA_CLUSTER t <= c.
+Lemma is_data_min t dm c : is_data t dm c = true -> Gen.MIN_DATA_CLUSTER t <= c.
 Proof. unfold is_data. lia. Qed.
-Lemma is_chain_links t fat eoc l : is_eoc t eoc = true -> is_chain fat eoc l ->
-  Forall (fun c => 0 <= c < lenZ fat /\ is_data t c = true) l -> links t fat l.
+Lemma is_chain_links t dm fat eoc l : is_eoc t eoc = true -> is_data t dm eoc = false -> is_chain fat eoc l ->
+  Forall (fun c => 0 <= c < lenZ fat /\ is_data t dm c = true) l -> links t dm fat l.
 Proof.
-  intros He. induction l as [|c [|d r] IH]; intros H Hf; [destruct H| |].
-  - cbn [is_chain] in H. destruct (Forall_inv Hf) as [Hc Hcd]. apply is_data_min in Hcd. cbn [links]. rewrite H. split; [lia|exact He].
+  intros He Hnd. induction l as [|c [|d r] IH]; intros H Hf; [destruct H| |].
+  - cbn [is_chain] in H. destruct (Forall_inv Hf) as [Hc Hcd]. apply is_data_min in Hcd. cbn [links]. rewrite H. split; [lia|]. split; [exact Hnd|exact He].
   - destruct H as [H1 H2]. destruct (Forall_inv Hf) as [Hc Hcd]. apply is_data_min in Hcd. pose proof (Forall_inv_tail Hf) as Hr. destruct (Forall_inv Hr) as [_ Hdd].
     apply links_cons2. repeat split; try lia; try assumption. apply IH; assumption.
 Qed.
 
 (** the allocator's linking, seen by the follower: the old chain followed by the new clusters *)
-Theorem extend_chain t fat i ch new : vt t ->
-  chain_go (length fat) t fat i = (ch, true) ->
+Theorem extend_chain t dm fat i ch new : vt t -> dok t dm ->
+  chain_go (length fat) t dm fat i = (ch, true) ->
   new <> [] -> StronglySorted Z.lt new ->
   Forall (fun c => 2 <= c <= Gen.MAX_DATA_CLUSTER t /\ c < lenZ fat /\ nthZ fat c = 0) new ->
   let fat' := updZ (link_chain fat new (Gen.END_OF_CLUSTER_MAX t)) (last ch 0) (hd 0 new) in
-  chain_go (length fat') t fat' i = (ch ++ new, true).
+  chain_go (length fat') t dm fat' i = (ch ++ new, true).
 Proof.
-  intros Hv Hc Hne Hs Hf fat'.
+  intros Hv Hdm Hc Hne Hs Hf fat'.
   destruct (vt_consts t Hv) as (Hmin & _ & Hmax & _).
-  destruct (chain_go_links _ _ _ _ _ Hc) as [Hl Hh]. pose proof (chain_go_nodup _ _ _ _ _ Hc) as Hnd.
-  pose proof (links_in_range _ _ _ Hl) as Hr. pose proof (links_nonfree _ _ _ Hv Hl) as Hnf. pose proof (links_nonempty _ _ _ Hl) as Hchne.
+  destruct (chain_go_links _ _ _ _ _ _ Hc) as [Hl Hh]. pose proof (chain_go_nodup _ _ _ _ _ _ Hc) as Hnd.
+  pose proof (links_in_range _ _ _ _ Hl) as Hr. pose proof (links_nonfree _ _ _ _ Hv Hl) as Hnf. pose proof (links_nonempty _ _ _ _ Hl) as Hchne.
   set (f1 := link_chain fat new (Gen.END_OF_CLUSTER_MAX t)).
   assert (Hl1 : length f1 = length fat) by apply link_chain_length.
   assert (Hl1z : lenZ f1 = lenZ fat) by (unfold lenZ; rewrite Hl1; reflexivity).
@@ -151,18 +153,18 @@ Proof.
   { intros c Hn Ho. rewrite Forall_forall in Hf, Hnf. specialize (Hf c Hn). specialize (Hnf c Ho). lia. }
   assert (Hlast : In (last ch 0) ch) by (apply last_in; exact Hchne).
   assert (Hlr : 0 <= last ch 0 < lenZ fat) by (rewrite Forall_forall in Hr; apply Hr; exact Hlast).
-  assert (Hnew1 : links t f1 new).
-  { apply (is_chain_links t f1 (Gen.END_OF_CLUSTER_MAX t)); [apply eoc_max_is_eoc; exact Hv| |].
+  assert (Hnew1 : links t dm f1 new).
+  { apply (is_chain_links t dm f1 (Gen.END_OF_CLUSTER_MAX t)); [apply eoc_max_is_eoc; exact Hv|apply eoc_max_not_data; assumption| |].
     - apply link_chain_is_chain; [exact Hne|exact Hs|]. eapply Forall_impl; [|exact Hf]. cbv beta. intros; lia.
-    - eapply Forall_impl; [|exact Hf]. cbv beta. intros a Ha. rewrite Hl1z. unfold is_data. rewrite Hmin. split; lia. }
-  assert (Hnew : links t fat' new).
-  { apply (links_frame t f1); [rewrite Hl1z; exact Hl'| |exact Hnew1].
+    - eapply Forall_impl; [|exact Hf]. cbv beta. intros a Ha. rewrite Hl1z. unfold is_data. rewrite Hmin. destruct Hdm. split; lia. }
+  assert (Hnew : links t dm fat' new).
+  { apply (links_frame t dm f1); [rewrite Hl1z; exact Hl'| |exact Hnew1].
     intros c Hcn. unfold fat'. apply nthZ_updZ_other; [lia| |].
     - rewrite Forall_forall in Hf. specialize (Hf c Hcn). lia.
     - intro E. apply (Hdis c Hcn). rewrite <- E. exact Hlast. }
   assert (Hhd : In (hd 0 new) new) by (destruct new; [congruence|left; reflexivity]).
-  assert (Hall : links t fat' (ch ++ new)).
-  { apply (links_extend t ch fat); try assumption.
+  assert (Hall : links t dm fat' (ch ++ new)).
+  { apply (links_extend t dm ch fat); try assumption.
     - intros c Hcc Hne'. unfold fat'. rewrite nthZ_updZ_other; [|lia| |congruence].
       + unfold f1. apply link_chain_other.
         * rewrite Forall_forall in Hr. specialize (Hr c Hcc). lia.
@@ -170,15 +172,20 @@ Proof.
         * intro Hin. apply (Hdis c Hin Hcc).
       + rewrite Forall_forall in Hr. specialize (Hr c Hcc). lia.
     - unfold fat'. fold f1. apply nthZ_updZ_same. rewrite Hl1z. exact Hlr.
-    - rewrite Forall_forall in Hf. specialize (Hf _ Hhd). unfold is_data. rewrite Hmin. lia. }
+    - rewrite Forall_forall in Hf. specialize (Hf _ Hhd). unfold is_data. rewrite Hmin. destruct Hdm. lia. }
   assert (Hhd' : hd 0 (ch ++ new) = i) by (destruct ch; [congruence|exact Hh]).
-  rewrite <- Hhd'. apply links_chain_go; [exact Hv|exact Hall|].
+  rewrite <- Hhd'. apply links_chain_go; [exact Hall|].
   apply nodup_bounded.
   - apply NoDup_app'; [exact Hnd| |intros c H1 H2; apply (Hdis c H2 H1)].
     clear - Hs. induction Hs as [|x l Hs IH Hlt]; constructor; [|exact IH]. intro Hin. rewrite Forall_forall in Hlt. specialize (Hlt _ Hin). lia.
   - replace (Z.of_nat (length fat')) with (lenZ fat) by (rewrite <- Hl'; reflexivity).
     apply Forall_app. split; [exact Hr|]. eapply Forall_impl; [|exact Hf]. cbv beta. intros; lia.
 Qed.
+
+Lemma dmax_dok s : vt (ft s) -> dok (ft s) (dmax s).
+Proof. intros Hv. destruct (vt_bad _ Hv) as [_ H]. unfold dok, dmax. lia. Qed.
+Lemma dmax_geo s s' : s_h s' = s_h s -> s_p s' = s_p s -> dmax s' = dmax s.
+Proof. intros H1 H2. unfold dmax, ft, max_cluster, count_of_clusters, total_sectors. rewrite H1, H2. reflexivity. Qed.
 
 (** * [write_dir] then [read_dir], hypotheses on the state BEFORE the write only *)
 Definition vol_ok (s:st) : Prop := forall c, 2 <= c <= max_cluster s -> inside s c.
@@ -229,7 +236,7 @@ Proof.
       destruct (allocate_dev _ _ _ _ _ Hd G Hh ltac:(lia) Ea) as [_ Hg2]. destruct (same_geo_facts _ _ Hg2) as (_ & _ & Et2 & _ & _).
       set (s1 := upd_fat s2 (updZ (s_fat s2) (last ch 0) (hd 0 new)) (s_hint s2)) in *.
       assert (Hch1' : 1 <= lenZ ch).
-      { pose proof (chain_go_nonempty _ _ _ _ _ Hch). destruct ch; [congruence|unfold lenZ; cbn [length]; lia]. }
+      { pose proof (chain_go_nonempty _ _ _ _ _ _ Hch). destruct ch; [congruence|unfold lenZ; cbn [length]; lia]. }
       assert (Hbig : lenZ ch * bpc s < lenZ b).
       { destruct (Z_lt_dec (lenZ ch * bpc s) (lenZ b)) as [?|Hnl]; [assumption|]. pose proof (ceil_div_le (lenZ b) (bpc s) (lenZ ch) HB ltac:(lia)). lia. }
       assert (Hnn : 1 <= lenZ new).
@@ -238,7 +245,8 @@ Proof.
       assert (Hne : new <> []) by (intro; subst new; unfold lenZ in Hnn; cbn in Hnn; lia).
       assert (Hch1 : chain s1 c = (ch ++ new, true)).
       { unfold chain, s1. cbn [s_fat upd_fat]. replace (ft (upd_fat s2 _ _)) with (ft s) by (rewrite <- Et2; reflexivity).
-        rewrite Hfat. apply extend_chain; try assumption.
+        replace (dmax (upd_fat s2 _ _)) with (dmax s) by (symmetry; apply dmax_geo; [apply Hg2|apply Hg2]).
+        rewrite Hfat. apply extend_chain; try assumption; [apply dmax_dok; exact Hv|].
         eapply Forall_impl; [|exact Hf]. cbv beta. intros a Ha. rewrite Hfree in Ha. lia. }
       rewrite Hch1 in Hw'. destruct (write_chunks_form _ _ _ _ Hw') as (d & l & ->).
       exists (ch ++ new). split; [unfold chain_all; change (chain (upd_dev s1 d l) c) with (chain s1 c); rewrite Hch1; reflexivity|].
